@@ -727,4 +727,85 @@ def run(ctx, prog):
             ctx.inst('C15.R5', 'build configuration', 'positive control: the pinned prost declares the feature this rule looks for', FEAT in declared,
                      'features declared by prost: %s' % sorted(declared), nontrivial=False)
     ctx.floor('C15.R5', 'message types of the schema that contain themselves', len(rec), 1, 'MetadataFilter, And / Or / Not filter, the oneof')
+    # ------------------------------------------------------------------ R6 no division by a client-controlled zero while validating
+    ctx.rule('C15.R6', 'request validation runs on client-controlled filters before anything else, partly inside spawned stream tasks the panic containment layer does not '
+                       'cover: a panic there leaves stream items unanswered. Every division / remainder by a non-constant divisor in the validation modules '
+                       '(api_validation, adaptive_oversampling) has a divisor that is ≥ 1 on every path: a constant ≥ 1, max(_, c ≥ 1), clamp(_, c ≥ 1, _), min / product of '
+                       'such values, or the result of a local function all of whose returns are such (recursion assumed, then discharged). Decides non-zero-ness of '
+                       'divisors structurally, not the values')
+
+    def _ge1(e, b, assume, depth=0):
+        if depth > 12:
+            return False
+        k = e[0]
+        if k == 'const':
+            v = e[2] if len(e) > 2 and isinstance(e[2], int) else None
+            if v is None:
+                m_ = re.match(r'^(\d+)', str(e[1]))
+                v = int(m_.group(1)) if m_ else None
+            return v is not None and v >= 1
+        if k == 'phi':
+            return bool(e[1]) and all(_ge1(a, b, assume, depth + 1) for a in e[1])
+        if k == 'cast':
+            return _ge1(e[1], b, assume, depth + 1)
+        if k == 'field' and isinstance(e[2], str) and e[2] == '.0' and e[1][0] == 'bin':
+            return _ge1(e[1], b, assume, depth + 1)
+        if k == 'bin':
+            op = e[1].replace('WithOverflow', '').replace('Unchecked', '')
+            if op == 'Mul':
+                return _ge1(e[2], b, assume, depth + 1) and _ge1(e[3], b, assume, depth + 1)
+            if op == 'Add':
+                return _ge1(e[2], b, assume, depth + 1) or _ge1(e[3], b, assume, depth + 1)
+            return False
+        if k == 'call':
+            sh = flow.short(e[1])
+            a = e[2]
+            if re.search(r'(^|::)clamp$', sh) and len(a) == 3:
+                return _ge1(a[1], b, assume, depth + 1)
+            if re.search(r'(^|::)max$', sh) and len(a) == 2:
+                return _ge1(a[0], b, assume, depth + 1) or _ge1(a[1], b, assume, depth + 1)
+            if re.search(r'(^|::)min$', sh) and len(a) == 2 and not sh.endswith('Iterator::min'):
+                return _ge1(a[0], b, assume, depth + 1) and _ge1(a[1], b, assume, depth + 1)
+            if sh.endswith('Option::unwrap_or') and len(a) == 2:
+                # min/max over mapped elements, or the default
+                inner = a[0]
+                ok_in = False
+                if inner[0] == 'call' and re.search(r'Iterator::(min|max)$', flow.short(inner[1])) and inner[2] and inner[2][0][0] == 'call' and flow.short(inner[2][0][1]).endswith('Iterator::map'):
+                    fn_ = inner[2][0][2][1] if len(inner[2][0][2]) > 1 else None
+                    r_ = flow.render(fn_) if fn_ is not None else ''
+                    g = next((x for x in prog.bodies.values() if x.kind in ('Fn', 'AssocFn') and x.short and r_.endswith(x.short.split('::')[-1]) and 'adaptive_oversampling' in x.id), None)
+                    ok_in = g is not None and _fn_ge1(g, assume)
+                return ok_in and _ge1(a[1], b, assume, depth + 1)
+            g = prog.resolve_local(e[1])
+            if g is not None:
+                return _fn_ge1(g, assume)
+            return False
+        return False
+
+    def _fn_ge1(g, assume):
+        if g.id in assume:
+            return True
+        assume = assume | {g.id}
+        alts = flow.top_alternatives(flow.Origin(g).of_local(0))
+        return bool(alts) and all(_ge1(a, g, assume) for a in alts)
+    n6 = 0
+    for b in sorted(prog.bodies.values(), key=lambda x: x.id):
+        if not re.search(r'(^|::)(adaptive_oversampling|api_validation)::', b.id) or b.kind == 'Promoted' or '::tests::' in b.id:
+            continue
+        of6 = None
+        k6 = 0
+        for i_, blk in enumerate(b.blocks):
+            if i_ not in b.live_blocks():
+                continue
+            for st in blk['s']:
+                rv = st.get('rv')
+                if rv and rv.get('k') == 'bin' and rv['op'] in ('Div', 'Rem') and rv['b'].get('k') != 'c':
+                    of6 = of6 or flow.Origin(b)
+                    d = of6.of_operand(rv['b'])
+                    ok6 = _ge1(d, b, frozenset())
+                    n6 += 1
+                    ctx.inst('C15.R6', b.short, 'divisor #%d is ≥ 1 on every path' % k6, ok6,
+                             'divisor = %s%s' % (flow.render(d)[:120], '' if ok6 else ' — can be 0 for a client-built filter: "attempt to divide by zero" panics inside request validation'))
+                    k6 += 1
+    ctx.floor('C15.R6', 'divisions by a non-constant divisor in the validation modules', n6, 2, 'average over OR operands, 50 / inner selectivity')
     ctx.stat('functions_analysed', len(set(i['key'].split(' | ')[1] for i in ctx.instances)))
